@@ -1105,7 +1105,7 @@ theorem C17_ifaddrs_failure_defined (f : NFail) (hf : f.ifaddrInit = true) (c : 
     obtain ⟨h1, h2⟩ := h es rfl
     simp only [netIfAddrsC, Spec.nifOutcome, ifRows_hwText c hg mac hm es h1 h2]
 
-/-- **counterexample (finding C17-ifaddr-uninit, PENDING(fixes/C17-ifaddr-init.diff))** — with `struct ifaddrs *ifaddr;`
+/-- **counterexample (defect C17-ifaddr-uninit, repaired by /repo 8ff7455; kept for the unrepaired configuration)** — with `struct ifaddrs *ifaddr;`
     left uninitialised, a getifaddrs() that fails WITHOUT storing into `*ifap` (musl; allowed by getifaddrs(3)) makes the
     error path call `freeifaddrs()` on an indeterminate pointer: undefined behaviour (SIGSEGV on the real extension)
     where the specification says OSError(ENOMEM).  With glibc's store-NULL-first behaviour the same code is defined. -/
@@ -1121,7 +1121,7 @@ theorem nif_cleanup_good : Gen.C17.nifCleanup =
     ["if(getifaddrs(&ifaddr)==-1){PyErr_SetFromErrno(PyExc_OSError);gotoerror;}", "loop-exit:freeifaddrs(ifaddr);",
      "error:if(ifaddr!=NULL)freeifaddrs(ifaddr);"] := by decide
 
-/- AFTER fixes/C17-ifaddr-init.diff has landed (fact nifIfaddrInit = true): uncomment, `./check C17 --rebaseline`.
+/- fixes/C17-ifaddr-init.diff has landed as /repo 8ff7455 (fact nifIfaddrInit = true): obligation + the statement for the code as it is -/
 /-- translator obligation: `ifaddr` holds NULL when getifaddrs() is called -/
 theorem nfail_good : nfail.ifaddrInit = true := by decide
 
@@ -1129,7 +1129,6 @@ theorem C17_ifaddrs_failure_defined_current (a : GiaAns)
     (h : ∀ es, a = .ok es → (∀ e ∈ es, EntryWF e) ∧ (∀ e ∈ es, EntryBytes e)) :
     netIfAddrsC nfail ncfg mcfg a = Spec.nifOutcome a :=
   C17_ifaddrs_failure_defined nfail nfail_good ncfg ncfg_good mcfg mcfg_good a h
--/
 
 /-- **C17_ifaddrs_rows_kernel_text** — `C17_ifaddrs_rows` composed with `C17_mac_text`: the rows of the CURRENT source equal
     the specification written with the kernel's own hardware text (`Spec.hwText`: `aa:bb:…`, nothing for an empty address) -/
